@@ -44,7 +44,25 @@ def circuits(ctx):
         yield "G2", p
     from .. import gen
     import networkx as nx
+    from ..proj import proj_graph
 
+    # an internal gate read by an inverter AND by other gates, under many names: the order in which the writer lists the
+    # statements (a set's order) decides whether the inverter is read before or after the other readers
+    pool = ["x", "y", "z", "w", "p", "q", "m", "k", "u", "v", "s", "t", "net1", "net2", "net3", "n_4", "sig", "tmp", "e", "f"]
+    for j in range(24 if ctx.quick else 200):
+        r = ctx.rng("C03inv", j)
+        a, b, c0, x, y, z, w = r.sample(pool, 7)
+        g = nx.DiGraph()
+        for n in (a, b, c0):
+            g.add_node(n, type="input", output=False)
+        g.add_node(x, type=r.choice(["and", "or", "xor", "nand", "nor", "xnor"]), output=False)
+        g.add_node(y, type="not", output=True)
+        g.add_node(z, type=r.choice(["and", "or", "xor"]), output=True)
+        g.add_node(w, type=r.choice(["buf", "nand", "xnor"]), output=True)
+        g.add_edges_from([(a, x), (b, x), (x, y), (x, z), (c0, z), (x, w)])
+        if g.nodes[w]["type"] != "buf":
+            g.add_edge(a, w)
+        yield "INVFOLD", proj_graph(g, "invfold")
     for j in range(80 if ctx.quick else 2000):
         r = ctx.rng("C03g3", j)
         c = gen.rand_circuit(r, n_in=r.randint(1, 4), n_gates=r.randint(1, 9), max_fanin=4, consts=0.3, xconst=0.15, out_is_input=0.3, loaded_in_out=0.15)
